@@ -284,6 +284,14 @@ func (im *Impl) Do(c Cmd) Res {
 		return Res{OK: true, S: tag}
 	case "nextid":
 		return Res{OK: true, N: int(im.Broker.NextId())}
+	case "script":
+		// run a write script given as JSON in c.S
+		var ws []StdioWrite
+		if err := json.Unmarshal([]byte(c.S), &ws); err != nil {
+			return Res{Err: err.Error()}
+		}
+		RunStdioScript(ws)
+		return Res{OK: true}
 	case "stdio":
 		// write c.N pattern bytes to the process stdout ("out") or stderr ("err")
 		w := os.Stdout
@@ -517,6 +525,38 @@ type PluginCfg struct {
 	EventLog      string         `json:"event_log"` // NDJSON file for hook events of the plugin process
 	PreStdout     string         `json:"pre_stdout"`
 	IgnoreTerm    bool           `json:"ignore_term"`
+	// StdioScript is written to the (swapped) process stdout/stderr as soon as serving starts,
+	// i.e. possibly before the host has attached.
+	StdioScript []StdioWrite `json:"stdio_script,omitempty"`
+}
+
+type StdioWrite struct {
+	Stream string `json:"stream"` // "out", "err"
+	N      int    `json:"n"`
+	Seed   int    `json:"seed"`
+	GapMs  int    `json:"gap_ms"`
+}
+
+// RunStdioScript performs the writes (one goroutine per stream, so that the streams interleave).
+func RunStdioScript(ws []StdioWrite) {
+	for _, st := range []string{"out", "err"} {
+		st := st
+		go func() {
+			for _, w := range ws {
+				if w.Stream != st {
+					continue
+				}
+				if w.GapMs > 0 {
+					time.Sleep(time.Duration(w.GapMs) * time.Millisecond)
+				}
+				f := os.Stdout
+				if st == "err" {
+					f = os.Stderr
+				}
+				f.Write(Pattern(w.Seed, w.N))
+			}
+		}()
+	}
 }
 
 const (
